@@ -89,6 +89,24 @@ func arithParserStyle(style int) parsley.Parser {
 		))
 		return combinator.Sentence(text.Trim(&expr))
 	}
+	if style == 3 {
+		// every token left-trimmed, and the operand a named first-match choice whose first alternative
+		// can fail behind skipped whitespace before the second one matches
+		tok = func(p parsley.Parser) parsley.Parser { return text.LeftTrim(guard(p), text.WsSpacesNl) }
+		factor = combinator.Memoize(combinator.Choice(
+			tok(terminal.Integer("int")),
+			combinator.SeqOf(tok(terminal.Rune('(')), &expr, tok(terminal.Rune(')'))).Bind(interpreter.Select(1)),
+		).Name("operand"))
+		term = combinator.Memoize(combinator.Any(
+			combinator.SeqOf(&term, tok(combinator.Choice(terminal.Rune('*'), terminal.Rune('/'))), &factor).Bind(binop),
+			&factor,
+		))
+		expr = combinator.Memoize(combinator.Any(
+			combinator.SeqOf(&expr, tok(combinator.Choice(terminal.Rune('+'), terminal.Rune('-'))), &term).Bind(binop),
+			&term,
+		))
+		return combinator.Sentence(text.Trim(&expr))
+	}
 	if style == 2 {
 		// the operators are terminal.Op tokens (another node type with its own start and end)
 		factor = combinator.Memoize(combinator.Any(
